@@ -26,17 +26,18 @@ CLS_FOR = {"GA": ["Item:plain", "Item:set", "Item:boom", "Item:get", "Model:plai
 INPUTS = {
     "GA": ["A item x = 1; ref x;", "A item x = 1; item y = 22; ref y; ref x;", "A item x = 1; ref zz;", "A item x = 1 ref x;",
            "A item bad = 3;", "A item boom = 3; item k = 1;", "A item mperr = 1;", "A item perr = 2; ref perr;", "",
-           "A item x = 1; item x = 2; ref x;", "A item y = 5; ref x;"],
-    "GB": ["item a 5", "item a 3.5 !", "5", "'str'", "item", "item a b", "item boom 1", "item bad 2.0"],
+           "A item x = 1; item x = 2; ref x;", "A item y = 5; ref x;",
+           "A item x = 1; item y = 13; ref x;", "A item x = 1; item nope = 2; ref x;"],
+    "GB": ["item a 5", "item a 3.5 !", "5", "'str'", "item", "item a b", "item boom 1", "item bad 2.0", "item a 13", "item nope 4 !"],
     "GC": ["C 1, 2.5, 'x', abc opt 12", "C 1 # comment\n, two", "C 1,, 2", "C 'a' opt true", "C x opt 3.0e1", "C 1 opt"],
     "GD": ['import "lib.gd"; item m; ref a; ref m;', 'import "lib2.gd"; ref c; ref c;', 'import "lib.gd"; ref zz;',
            'import "broken.gd"; item q;', 'import "missing.gd"; item q;', "item p = 2.0; ref p;",
            'import "cyc.gd"; item r; ref s;', "item ; ", 'import "lib.gd"; item mperr; ref b;', 'import "lib.gd"; item bad; ref a;',
            "item y; ref p;"],
-    "GE": ["12", "true", "item a 3", "3.5", "item a x", "item boom 4"],
+    "GE": ["12", "true", "item a 3", "3.5", "item a x", "item boom 4", "item c 13", "item nope 1"],
     # GF: the root value is whatever the object processors of the match rules return (Decimal, Fraction, tuple, frozenset,
     # list, a plain Python object) or an Item
-    "GF": ["item a 3", "12.5mm", "3:4", "item b 7", "item", "7mm", "12.5 mm", "10:2"],
+    "GF": ["item a 3", "12.5mm", "3:4", "item b 7", "item", "7mm", "12.5 mm", "10:2", "item c 13", "item nope 2"],
 }
 EXTRA_FILES = {"lib.gd": "item a = 1.5; item b;", "lib2.gd": 'import "lib.gd"; item c;', "broken.gd": "item ;",
                "cyc.gd": 'import "GD_6.gd"; item s; ref r;'}
@@ -80,8 +81,9 @@ def rand_cfg(r, g=None):
         m = r.weighted([("Measure:decimal", 4), ("Measure:fraction", 2), ("Measure:obj", 2), (None, 1)])
         q = r.weighted([("Pair:tuple", 4), ("Pair:frozenset", 2), ("Pair:list", 2), (None, 1)])
         objp += [x for x in (m, q) if x]
-    if g in ("GA", "GB", "GE", "GF") and r.chance(0.3):
-        objp.append("INT:inc")
+    if g in ("GA", "GB", "GE", "GF") and r.chance(0.5):
+        # base-type processors: a conversion, or a rejection that raises in the middle of the object-graph construction
+        objp.append(r.weighted([("INT:inc", 2), ("INT:no13", 3), ("ID:nope", 2)]))
     if g in ("GB", "GC") and r.chance(0.3):
         objp.append("STRING:up")
     if g != "GC" and r.chance(0.45):
